@@ -14,6 +14,12 @@ func (l *Local) Readdir(offset uint64, count uint32) (p9.Dirents, error) {
 		cursor = uint64(0)
 	)
 
+	// The directory stream keeps its position between calls, but cursor
+	// counts entries from the start of the directory: rewind first.
+	if _, err := l.file.Seek(0, io.SeekStart); err != nil {
+		return nil, err
+	}
+
 	for len(p9Ents) < int(count) {
 		singleEnt, err := l.file.Readdirnames(1)
 
@@ -26,8 +32,9 @@ func (l *Local) Readdir(offset uint64, count uint32) (p9.Dirents, error) {
 		// we consumed an entry
 		cursor++
 
-		// cursor \in (offset, offset+count)
-		if cursor < offset || cursor > offset+uint64(count) {
+		// Entries up to and including offset (the cookie of the last
+		// entry the client has seen) were returned by earlier calls.
+		if cursor <= offset {
 			continue
 		}
 
